@@ -1694,6 +1694,10 @@ class Kconfig(object):
     def _assigned_twice(self, sym, new_val, filename, linenr):
         # Called when a symbol is assigned more than once in a .config file
 
+        if sym._user_value is None:
+            # The earlier assignment was undone (unset_value() / reset to default) before this load
+            return
+
         # Use strings for bool user values in the warning
         if sym.orig_type == BOOL:
             user_val = BOOL_TO_STR[sym._user_value]
